@@ -34,31 +34,57 @@ def make(name, prop, file, old, new, why, rule):
         shutil.rmtree(d, ignore_errors=True)
 
 
-def run(names):
-    d = scratch()
+def run_one(d, name):
+    meta = json.load(open(os.path.join(VDIR, name + '.json')))
+    subprocess.check_call(['git', '-C', d, 'checkout', '-q', '--', '.'])
+    r = subprocess.run(['git', '-C', d, 'apply', os.path.join(VDIR, name + '.patch')],
+                       stdout=subprocess.PIPE, stderr=subprocess.STDOUT, text=True)
+    if r.returncode != 0:
+        return '%-40s PATCH-DOES-NOT-APPLY %s' % (name, r.stdout[-200:]), 1
+    env = dict(os.environ, VERIF_REPO=d)
+    r = subprocess.run([os.path.join(VERIF, 'check'), meta['property'], '--no-evidence'], env=env,
+                       stdout=subprocess.PIPE, stderr=subprocess.STDOUT, text=True)
+    out = r.stdout
+    fired = [l for l in out.splitlines() if l.strip().startswith('rule ')]
+    want = meta.get('rule')
+    if want == 'NONE':   # benign variant: behaviour-preserving edit, the check must stay silent
+        if r.returncode == 0:
+            return '%-40s BENIGN-OK (no report, as required)' % name, 0
+        return '%-40s FALSE-ALARM (rc=%d)\n%s' % (name, r.returncode, out[-800:]), 1
+    hit = [l for l in fired if want is None or ('rule %s ' % want) in l]
+    if r.returncode == 1 and hit:
+        return '%-40s DETECTED by %s (%d reports)' % (name, want, len(fired)), 0
+    if r.returncode == 2:
+        return '%-40s EXIT2 (does not compile or anchor missing)\n%s' % (name, out[-800:]), 1
+    return '%-40s MISSED (rc=%d)\n%s' % (name, r.returncode, out[-600:]), 1
+
+
+def run(names, jobs=4):
+    import concurrent.futures
+    import queue
+    jobs = max(1, min(jobs, len(names)))
+    pool = queue.Queue()
+    dirs = []
     bad = 0
     try:
-        for name in names:
-            meta = json.load(open(os.path.join(VDIR, name + '.json')))
-            subprocess.check_call(['git', '-C', d, 'checkout', '-q', '--', '.'])
-            r = subprocess.run(['git', '-C', d, 'apply', os.path.join(VDIR, name + '.patch')])
-            if r.returncode != 0:
-                print('%-40s PATCH-DOES-NOT-APPLY' % name); bad += 1; continue
-            env = dict(os.environ, VERIF_REPO=d)
-            r = subprocess.run([os.path.join(VERIF, 'check'), meta['property'], '--no-evidence'], env=env,
-                               stdout=subprocess.PIPE, stderr=subprocess.STDOUT, text=True)
-            out = r.stdout
-            fired = [l for l in out.splitlines() if l.strip().startswith('rule ')]
-            want = meta.get('rule')
-            hit = [l for l in fired if want is None or ('rule %s ' % want) in l]
-            if r.returncode == 1 and hit:
-                print('%-40s DETECTED by %s (%d reports)' % (name, want, len(fired)))
-            elif r.returncode == 2:
-                print('%-40s EXIT2 (does not compile or anchor missing)\n%s' % (name, out[-800:])); bad += 1
-            else:
-                print('%-40s MISSED (rc=%d)\n%s' % (name, r.returncode, out[-600:])); bad += 1
+        for _ in range(jobs):
+            d = scratch()
+            dirs.append(d)
+            pool.put(d)
+
+        def work(name):
+            d = pool.get()
+            try:
+                return run_one(d, name)
+            finally:
+                pool.put(d)
+        with concurrent.futures.ThreadPoolExecutor(max_workers=jobs) as ex:
+            for line, b in ex.map(work, names):
+                print(line, flush=True)
+                bad += b
     finally:
-        shutil.rmtree(d, ignore_errors=True)
+        for d in dirs:
+            shutil.rmtree(d, ignore_errors=True)
     return bad
 
 
